@@ -53,6 +53,10 @@ func mkTx(txType common2.TxType, ins []*common2.Input, values []int64, lock uint
 		if ins == nil {
 			ins = []*common2.Input{{Previous: common2.OutPoint{Index: 0xffff}, Sequence: 0xffffffff}}
 		}
+	case common2.NextTurnDPOSInfo:
+		pl = &payload.NextTurnDPOSInfo{WorkingHeight: lock}
+	case common2.RevertToPOW:
+		pl = &payload.RevertToPOW{WorkingHeight: lock}
 	case common2.RegisterAsset:
 		pl = &payload.RegisterAsset{Asset: payload.Asset{Name: fmt.Sprintf("a%d", lock), Precision: 8}, Amount: 1, Controller: programHash}
 	}
@@ -82,7 +86,8 @@ func main() {
 		"UTXOCache (MaxReferenceSize 1..4) on a mutable IUTXOCacheStore: GetTxReference/GetTransaction/CleanCache/CleanTxCache/store add/remove; "+
 		"TxCache (TxCacheVolume 0..6, and near 2^32 for the uint32 wrap, one trace filling 10000+volume entries) via setTxn/deleteTxn/trim and via "+
 		"SaveBlock/RollbackBlock/FetchTx on a real ffldb chain store with reorganisations; GetBlock cache on that store incl. elanet pushBlockMsg; "+
-		"p2p.WriteMessage on a recording net.Conn with confirmed/unconfirmed variants of blocks and differing confirms. "+
+		"p2p.WriteMessage on a recording net.Conn with confirmed/unconfirmed variants of blocks and differing confirms; "+
+		"end-to-end reorganisation histories on the real node core (harness/fixture: ProcessBlock, forks of coinbase-only and transfer blocks) with every cached lookup compared to the uncached one after each step and inside each connect/disconnect event. "+
 		"nontrivial = the trace contains a cache hit after an eviction, clean or store change; distinct by the canonical trace text")
 	e.sh = &lib.Shards{Dir: run.Out, Imports: "From ELA Require Import model.C15_Caches corr.C15_corr.", CaseType: "C15_corr.case",
 		Mismatch: "C15_corr.mismatches", Scope: "N", PerShard: 25}
@@ -92,6 +97,7 @@ func main() {
 	runTxCacheUnit(e)
 	runChainStore(e, facts)
 	runSend(e)
+	runReorg(e)
 
 	e.st.Traces = e.st.Evals
 	e.sh.Flush()
